@@ -1,6 +1,7 @@
 package vc
 
 import (
+	"os"
 	"fmt"
 	"go/types"
 	"sort"
@@ -355,6 +356,18 @@ func (e *Exec) assumeType(st *State, v Term, t types.Type) {
 	}
 	if isHeapRefType(t) && v.Sort == SInt {
 		e.Ctx.Assume(st.PC, And(Ge(v, Int(0)), Le(v, st.Alloc)))
+	}
+	// elements of a slice of references denote existing objects (or nil)
+	if sl, ok := t.Underlying().(*types.Slice); ok && isHeapRefType(sl.Elem()) && strings.HasPrefix(v.Sort, "Sl_") && !strings.Contains(v.S, "!q") && os.Getenv("GOVC_NOELEM") == "" {
+		if strings.Contains(v.S, "ite") {
+			return // merged value: each branch got its own fact when it was loaded
+		}
+		arr := e.S.SlArr(v)
+		key := "elemalloc|" + arr.S
+		if !e.Ctx.factSeen[key] {
+			e.Ctx.factSeen[key] = true
+			e.Ctx.Assume(st.PC, Term{fmt.Sprintf("(forall ((i Int)) (! (=> (and (<= 0 i) (< i %s)) (and (<= 0 (select %s i)) (<= (select %s i) %s))) :pattern ((select %s i))))", e.S.SlLen(v).S, arr.S, arr.S, st.Alloc.S, arr.S), SBool})
+		}
 	}
 }
 
